@@ -416,12 +416,196 @@ def r13_every_factor_every_step_snap_after_all(idx, r):
                   msg=f"`{norm(s_.stmt)[:80]}` picks a mesh point by an ordering comparison: a top that is one rounding error below its mesh point gets the NEXT index and every boundary above shifts")
 
 
+BLOCK = "armi.reactor.blocks.Block"
+ASSEMBLY = "armi.reactor.assemblies.Assembly"
+COMPONENT = "armi.reactor.components.component.Component"
+
+
+def _creates_object(idx, f, name, env):
+    """Every binding of the local `name` in `f` creates the object it names: a class is called, the result of a call is called (a class picked
+    at run time), copy.copy / copy.deepcopy, or a call that is handed `name` itself (the fresh object transformed).  Parameters, loop
+    variables, subscripts and attribute reads name objects that already live somewhere."""
+    from ..index import ClassInfo
+    if name in f.params() or name == "self":
+        return False
+    binds = [s_ for s_ in iter_stores(f.node, include_nested=False) if isinstance(s_.node, ast.Name) and s_.attr == name]
+    if not binds:
+        return False
+    for s_ in binds:
+        v = s_.value
+        if not (s_.kind == "assign" and isinstance(s_.stmt, ast.Assign) and len(s_.stmt.targets) == 1 and s_.stmt.targets[0] is s_.node and isinstance(v, ast.Call)):
+            return False
+        fn = propagate(v.func, {k: x for k, x in env.items() if k != name})
+        d = dotted(fn)
+        if isinstance(fn, ast.Call):
+            continue
+        if d in ("copy.deepcopy", "copy.copy", "deepcopy"):
+            continue
+        if d is not None and isinstance(idx.resolve_name(f.module, d), ClassInfo):
+            continue
+        if any(isinstance(a, ast.Name) and a.id == name for a in list(v.args) + [k.value for k in v.keywords]):
+            continue
+        return False
+    return True
+
+
+def r14_height_writers_restack(idx, r):
+    """'each block's bottom is the top of the one below, and the axial grid bounds equal those elevations' is kept by ONE routine,
+    Assembly.calculateZCoords, which re-derives zbottom/ztop/bounds from the heights.  Hence for EVERY place of the tree that stores a block's
+    `p.height` directly: (a) it is the constructor of the block (nothing is stacked yet), or (b) the stored value is that block's own
+    ztop - zbottom (the elevations are the source: axiallyExpandAssembly, whose bounds R12.2 decides), or (c) the block was created in this
+    function and has not been handed to an assembly yet, or (d) EVERY way of leaving the function normally after the store has passed
+    calculateZCoords (for Block.setHeight: whenever the block has a parent).  An early `return` between the store and the re-stacking - also
+    one taken in a LATER iteration of the loop that resizes the blocks - leaves heights and elevations in disagreement; the next axial
+    expansion re-stacks bottoms from the stale tops and the assembly's total height changes."""
+    from ..own import all_stores
+    cz = idx.method(ASSEMBLY, "calculateZCoords")
+    written = {s_.chain.split(".", 1)[1] if s_.chain and "." in s_.chain else s_.attr for s_ in iter_stores(cz.node) if s_.kind == "assign" and s_.chain}
+    r.require({"p.zbottom", "p.ztop", "spatialGrid._bounds"} <= written, "calculateZCoords:rederives-bottoms-tops-and-bounds", cz,
+              msg=f"calculateZCoords no longer writes all of zbottom, ztop and the grid bounds (writes {sorted(written)}): the elevations are not re-derived from the heights by anybody")
+    sites = [(f, s_) for f, s_ in all_stores(idx, "height") if s_.chain and s_.chain.endswith(".p.height") and ".tests" not in f.module.name]
+    sites += [(f, s_) for f, s_ in all_stores(idx, "p") if s_.kind in ("subscript", "subscript-aug") and s_.chain and isinstance(s_.node.slice, ast.Constant) and s_.node.slice.value == "height"
+              and ".tests" not in f.module.name]
+    sh = idx.method(BLOCK, "setHeight")
+    if not any(f is sh or f.node is sh.node for f, _s in sites):
+        raise AnchorMissing("Block.setHeight: the store of self.p.height")
+    seen = {}
+    for f, s_ in sites:
+        blk = s_.chain[: -len(".p.height")] if s_.chain.endswith(".p.height") else s_.chain[: -len(".p")]
+        key = f"{f.qualname}:{blk}.p.height"
+        seen[key] = seen.get(key, 0) + 1
+        if seen[key] > 1:
+            key += f"#{seen[key]}"
+        if not isinstance(f.node, (ast.FunctionDef, ast.AsyncFunctionDef)):
+            r.undecided(key, f, "a block height is stored by module-level code", node=s_.stmt)
+            continue
+        if blk == "self" and f.name == "__init__":
+            r.ok(key + ":constructor", f, node=s_.stmt)
+            continue
+        env = single_assign_env(f.node)
+        if s_.kind == "assign" and s_.value is not None and norm(propagate(s_.value, env)) == f"{blk}.p.ztop - {blk}.p.zbottom":
+            r.ok(key + ":is-top-minus-bottom", f, node=s_.stmt)
+            continue
+        fresh = "." not in blk and _creates_object(idx, f, blk, env)
+
+        def ev(n, stmt=s_.stmt, blk=blk):
+            if n is stmt:
+                return ["resized"]
+            if isinstance(n, ast.Call) and call_attr(n) == "calculateZCoords":
+                return ["restacked"]
+            if isinstance(n, ast.Call) and call_attr(n) in ("add", "insert", "append", "extend") and any(isinstance(a, ast.Name) and a.id == blk for x in list(n.args) + [k.value for k in n.keywords] for a in ast.walk(x)):
+                return ["stacked"]
+            return []
+
+        def stacked_block(t, blk=blk):
+            """the block sits in an assembly (a block without parent has no elevations that could go stale)"""
+            pol = True
+            while isinstance(t, ast.UnaryOp) and isinstance(t.op, ast.Not):
+                t, pol = t.operand, not pol
+            txt = norm(t)
+            if txt in (f"{blk}.parent", f"{blk}.parent is not None", f"{blk}.parent != None"):
+                return pol
+            if txt in (f"{blk}.parent is None", f"{blk}.parent == None"):
+                return not pol
+            return None
+        fl = Flow(f.node, ev, assume=stacked_block).run()
+        before = fl.state_before(s_.stmt) or {}
+        if fresh and before.get("stacked", (0, 0))[1] == 0:
+            r.ok(key + ":block-created-here-not-stacked-yet", f, node=s_.stmt)
+            continue
+        if before.get("restacked", (0, 0))[1] > 0:
+            r.undecided(key + ":restacked-on-every-path-out", f, "calculateZCoords may run BEFORE this store as well: event counting cannot tell which came last", node=s_.stmt)
+            continue
+        bad = [e for e in fl.normal_exits() if e.state.get("resized", (0, 0))[1] > 0 and e.state.get("restacked", (0, 0))[0] < 1]
+        where = ", ".join(sorted({f"line {e.line}" if e.line else "the end of the function" for e in bad}))
+        r.require(not bad, key + ":restacked-on-every-path-out", f, node=(bad[0].node if bad and bad[0].node is not None else s_.stmt),
+                  msg=f"`{norm(s_.stmt)[:60]}` changes a block height and the function can then be left ({where}) without calculateZCoords(): the resized blocks keep their old "
+                      "zbottom/ztop and the grid keeps its old bounds (e.g. a snap abandoned at a later block because the reference mesh is too short or has a None entry); "
+                      "the next axial expansion re-stacks the bottoms from the stale tops and the assembly's total height changes")
+
+
+def r15_temperature_and_densities_together(idx, r):
+    """'by any temperature field ... the mass of each block's target component is always conserved': a component's hot area is a function of
+    its temperature, so a method of the Component family that stores a new `temperatureInC` rescales the number densities by the material's
+    density change (prev -> new) and drops the cached areas/volumes on EVERY path on which the temperature was stored - however small the
+    step (a slow ramp of 0.05 C steps is a temperature field like any other; the skipped rescalings add up).  Exempt: the constructor (the
+    densities are derived afterwards, at that temperature) and the property setter (the primitive the others store through).  And a
+    temperature handed in is stored.  Paths are those of the generic input: a test for EQUALITY of two numbers (old and new temperature,
+    factor and 1.0) is taken as false - what it guards is the identity.  Inside the axial-expansion package nobody stores a temperature
+    except through that method."""
+    from ..own import all_stores
+    comp = idx.cls(COMPONENT)
+    family = {id(m.node): (c, m) for c in idx.subclasses(comp, strict=False) for m in c.methods.values()}
+    sites = [(f, s_) for f, s_ in all_stores(idx, "temperatureInC") if s_.chain in ("self.temperatureInC", "self.p.temperatureInC") and id(f.node) in family]
+    st = comp.methods.get("setTemperature")
+    if st is None or not any(f.node is st.node for f, _s in sites):
+        raise AnchorMissing("Component.setTemperature: the store of self.temperatureInC")
+    for f, s_ in sites:
+        key = f"{f.qualname}"
+        if f.name == "__init__":
+            r.ok(key + ":constructor", f, node=s_.stmt)
+            continue
+        if any(isinstance(d, ast.Attribute) and d.attr == "setter" and norm(d.value) == "temperatureInC" for d in f.node.decorator_list):
+            r.ok(key + ":property-setter", f, node=s_.stmt)
+            continue
+        env = single_assign_env(f.node)
+
+        def ev(n, stmt=s_.stmt, env=env):
+            if n is stmt:
+                return ["stored"]
+            if isinstance(n, ast.Call) and norm(n.func) == "self.changeNDensByFactor" and n.args:
+                a = propagate(n.args[0], env)
+                if any(isinstance(x, ast.Call) and call_attr(x) == "getThermalExpansionDensityReduction" for x in ast.walk(a)):
+                    return ["rescaled"]
+            if isinstance(n, ast.Call) and norm(n.func) == "self.clearLinkedCache":
+                return ["cleared"]
+            return []
+
+        def generic(t):
+            """the generic input: two run-time NUMBERS are not equal (`if f != 1.0:` around the rescaling, `if new == old: return` are identities of the special case they test)"""
+            if isinstance(t, ast.Compare) and len(t.ops) == 1 and isinstance(t.ops[0], (ast.Eq, ast.NotEq)) and \
+                    not any(isinstance(x, ast.Constant) and (x.value is None or isinstance(x.value, (str, bool, bytes))) for x in [t.left] + t.comparators):
+                return isinstance(t.ops[0], ast.NotEq)
+            return None
+        fl = Flow(f.node, ev, assume=generic).run()
+        exits = fl.normal_exits()
+        if not exits:
+            raise AnalysisError(f"{f.qualname}: no normal exit")
+        for fact, what, then in (("rescaled", "rescaling the number densities by material.getThermalExpansionDensityReduction(prev, new)",
+                                  "the hot area follows the new temperature while the densities stay, so the component's mass drifts - by every step of a slow ramp, cumulatively"),
+                                 ("cleared", "clearLinkedCache()", "the component's and the block's cached areas/volumes are those of the old temperature and masses are computed from them")):
+            bad = [e for e in exits if e.state.get("stored", (0, 0))[1] > 0 and e.state.get(fact, (0, 0))[0] < 1]
+            conds = [norm(t) for e in bad if e.node is not None for t, _p in path_conditions(f.node, e.node)]
+            r.require(not bad, f"{key}:{fact}-whenever-the-temperature-was-stored", f, node=(bad[0].node if bad and bad[0].node is not None else s_.stmt),
+                      msg=f"{f.name} can be left after the new temperature was stored without {what}{' (under `' + conds[0][:60] + '`)' if conds else ''}: {then}")
+        unset = [e for e in exits if e.state.get("stored", (0, 0))[0] < 1]
+        r.require(not unset, f"{key}:temperature-stored-on-every-path", f, node=(unset[0].node if unset and unset[0].node is not None else s_.stmt),
+                  msg=f"{f.name} can return without storing the temperature it was given (although it differs from the present one): the component stays at the old temperature, the thermal "
+                      "expansion factor of this step is computed from it and the block does not grow with its target")
+    n = 0
+    for m in idx.modules.values():
+        if not (m.name + ".").startswith(AXM + ".") or ".tests" in m.name:
+            continue
+        n += 1
+        for f in m.all_funcs():
+            for s_ in iter_stores(f.node, include_nested=False):
+                if s_.attr == "temperatureInC" and s_.chain and "." in s_.chain:
+                    r.violate(f"{f.qualname}:stores-a-temperature-directly", f, f"`{norm(s_.stmt)[:70]}` changes a component's temperature without Component.setTemperature: the densities are not "
+                              "rescaled by the area change and the expanded component's mass is not conserved", node=s_.stmt)
+    if n < 3:
+        raise AnchorMissing("modules of the axial expansion package")
+    ut = idx.method(ED, "updateComponentTemp")
+    r.require(any(call_attr(c) == "setTemperature" for c in iter_calls(ut.node)), "updateComponentTemp:through-setTemperature", ut,
+              msg="the temperature field is no longer applied through Component.setTemperature (the one routine that rescales the densities with the area)")
+
+
 def run(idx, chk):
     chk.explanation = (
         "C12: axiallyExpandAssembly typed with a role generator for the growth fraction (height x growth, densities x growth^-1); block bottoms on the "
         "lower block's top, tops only from target components and never for the dummy block, heights as differences, the height check on the NEW height, "
         "mesh from tops into the grid bounds, component stacking cases; linkage detection on cold diameters; reference temperature refreshed on every "
-        "update. Mass numbers and inverse-expansion restoration are NOT decided."
+        "update; every direct writer of a block height re-stacks (calculateZCoords) on every path out; every Component method that stores a temperature "
+        "rescales the densities and drops the caches on every such path. Mass numbers and inverse-expansion restoration are NOT decided."
     )
     chk.undecided_clauses = ["mass numbers", "inverse expansion restoring the state numerically"]
     chk.run_rule("R12.1", "component height x growth and densities x growth^-1 on the same component; cold-height increase by 1 + expansion(Tinput->T)", lambda r: r1_exponent(idx, r), floor=6, necessary="mass of each expanded component is conserved")
@@ -447,3 +631,7 @@ def run(idx, chk):
                  necessary="each block grows by its target's factor of this step only; solid components of neighbouring blocks stay contiguous")
     chk.run_rule("R12.13", "a thermal factor for every solid component; snapping after all assemblies are expanded; the snap index by tolerant equality", lambda r: r13_every_factor_every_step_snap_after_all(idx, r), floor=3,
                  necessary="each block grows by its target's factor of this step; the result does not depend on the order of the assemblies")
+    chk.run_rule("R12.14", "every direct store of a block height is a constructor's, the block's own ztop - zbottom, on a block not stacked yet, or is followed by calculateZCoords on every path out", lambda r: r14_height_writers_restack(idx, r), floor=7,
+                 necessary="'each block's bottom is the top of the one below, and the axial grid bounds equal those elevations' and the total height is unchanged by the NEXT expansion: heights and elevations agree whenever a height writer returns")
+    chk.run_rule("R12.15", "a Component method that stores a new temperature rescales the densities by the material's density change and drops the linked caches on every such path; the expansion package changes temperatures through it only", lambda r: r15_temperature_and_densities_together(idx, r), floor=6,
+                 necessary="'by any temperature field ... the mass of each block's target component is always conserved': every temperature change, however small, is compensated in the densities")
